@@ -9,6 +9,7 @@ from pygen import write_pkg
 from runner import Opts, run_many
 
 PKG = "walkpk"
+ANYNAME = {"dpart", "dpart2"}
 BASE = "from typing import Generic, TypeVar\n\nTB = TypeVar(\"TB\")\n\n\nclass BaseA:\n    pass\n\n\nclass BaseB:\n    pass\n\n\nclass GenBase(Generic[TB]):\n    pass\n"
 
 
@@ -45,7 +46,12 @@ def node_src(n, ind="") -> list[str]:
         for f in ("static", "classmethod", "property"):
             if f in flags:
                 L.append(f"{ind}{deco[f]}")
-        L.append(f"{ind}def {name}({ps})" + (" -> int:" if has_res else ":"))
+        if flags & {"docpartial", "docmore"}:      # two results, the NumPy docstring names one or three
+            docs = ["quotient : int"] if "docpartial" in flags else ["qa : int", "qb : int", "qc : str"]
+            L.append(f"{ind}def {name}({ps}) -> tuple[int, int]:")
+            L += [f'{ind}    """Split.', "", f"{ind}    Returns", f"{ind}    -------"] + [x for d in docs for x in (f"{ind}    {d}", f"{ind}        Text.")] + [f'{ind}    """']
+        else:
+            L.append(f"{ind}def {name}({ps})" + (" -> int:" if has_res else ":"))
         attrs = [c for c in n["ch"] if c["k"] == "attr"]
         if attrs:
             for a in attrs:
@@ -87,6 +93,7 @@ def observe(api: dict, mid: str, text_valid: bool, pk: str = PKG) -> dict:
     def own(x):      # the filler module of a package-file scenario is not part of it
         return (x == mid or x.startswith(pre)) and not (x + "/").startswith(pre + "fillmod/")
     seen = set()
+    rename = {}      # results of the ANYNAME functions are projected onto their positions in the owner's list
     for key, kind in (("classes", "class"), ("functions", "func"), ("enums", "enum"), ("attributes", "attr"), ("enum_instances", "inst"),
                       ("parameters", "param"), ("results", "result")):
         for e in api.get(key, []):
@@ -100,7 +107,13 @@ def observe(api: dict, mid: str, text_valid: bool, pk: str = PKG) -> dict:
                 refs = e["attributes"] + e["methods"] + e["classes"] + ([e["constructor"]["id"]] if e.get("constructor") else [])
                 supers = [s[len(pk) + 1:] if s.startswith(pk + ".") else s for s in e["superclasses"]]
             elif kind == "func":
-                refs = e["parameters"] + e["results"]
+                res = e["results"]
+                twice += sorted({r for r in res if res.count(r) > 1})
+                if e["name"] in ANYNAME:
+                    for j, r in reversed(list(enumerate(res))):
+                        rename[r] = (f"{e['id']}/?{j + 1}", f"?{j + 1}")
+                    res = [f"{e['id']}/?{j + 1}" for j in range(len(res))]
+                refs = e["parameters"] + res
                 flags = [f for f, k2 in (("static", "is_static"), ("classmethod", "is_class_method"), ("property", "is_property")) if e.get(k2)]
             elif kind == "enum":
                 refs = e["instances"]
@@ -108,7 +121,8 @@ def observe(api: dict, mid: str, text_valid: bool, pk: str = PKG) -> dict:
                 flags = ["static"] if e.get("is_static") else []
             dv = json.dumps(e.get("default_value")) if kind == "param" else ""
             twice += sorted({r for r in refs if refs.count(r) > 1})
-            entries.append({"kind": kind, "id": e["id"], "name": e["name"], "refs": refs, "flags": flags, "supers": supers, "dflt": dv})
+            eid, ename = rename.get(e["id"], (e["id"], e["name"])) if kind == "result" else (e["id"], e["name"])
+            entries.append({"kind": kind, "id": eid, "name": ename, "refs": refs, "flags": flags, "supers": supers, "dflt": dv})
     mod = next((m for m in api.get("modules", []) if m["id"] == mid), None)
     modrefs = (mod["classes"] + mod["functions"] + mod["enums"]) if mod else []
     twice += sorted({r for r in modrefs if modrefs.count(r) > 1})
@@ -125,7 +139,7 @@ def main(v: Verdict) -> None:
     for k, m in enumerate(mods):
         m["id"] = k + 1
         m["file"] = f"wm{k + 1:04d}" + ("__init__" if "initlike-filename" in m["flags"] else "")
-        m["pkg"] = f"{PKG}{k // CHUNK:02d}"
+        m["pkg"] = f"{PKG}doc" if "numpydoc" in m["flags"] else f"{PKG}{k // CHUNK:02d}"
     jobs, pkgs = [], sorted({m["pkg"] for m in mods})
     for pk in pkgs:
         files = {"__init__.py": "", "basemod.py": BASE, "basemod2.py": "class GenBase:\n    pass\n\n\ndef make_gen() -> GenBase:\n    return GenBase()\n"}
@@ -140,7 +154,7 @@ def main(v: Verdict) -> None:
                 files[f"{m['file']}/fillmod.py"] = "def fill() -> int:\n    ...\n"
             else:
                 files[f"{m['file']}.py"] = src
-        jobs.append({"src": write_pkg(files, pk), "opts": Opts(), "timeout": 1500, "trace_walk": True})
+        jobs.append({"src": write_pkg(files, pk), "opts": Opts(docstyle="NUMPYDOC") if pk.endswith("doc") else Opts(), "timeout": 1500, "trace_walk": True})
     runs = dict(zip(pkgs, run_many(jobs)))
     obs, n_walk = [], 0
     for pk in pkgs:
